@@ -64,6 +64,34 @@ func ZeroValue(typ types.Type, typeStr string) string {
 	return "*new(" + typeStr + ")"
 }
 
+// HasEqualMethod returns whether the type, or a field or an element that the == operator compares,
+// has its own Equal method, which the equal plugin calls instead of comparing with ==.
+func HasEqualMethod(tt types.Type) bool {
+	if named, isNamed := types.Unalias(tt).(*types.Named); isNamed {
+		for i := 0; i < named.NumMethods(); i++ {
+			meth := named.Method(i)
+			sig := meth.Type().(*types.Signature)
+			if meth.Name() != "Equal" || sig.Params().Len() != 1 || sig.Results().Len() != 1 {
+				continue
+			}
+			if b, ok := sig.Results().At(0).Type().(*types.Basic); ok && b.Kind() == types.Bool {
+				return true
+			}
+		}
+	}
+	switch typ := tt.Underlying().(type) {
+	case *types.Struct:
+		for i := 0; i < typ.NumFields(); i++ {
+			if HasEqualMethod(typ.Field(i).Type()) {
+				return true
+			}
+		}
+	case *types.Array:
+		return HasEqualMethod(typ.Elem())
+	}
+	return false
+}
+
 func IsComparable(tt types.Type) bool {
 	t := tt.Underlying()
 	switch typ := t.(type) {
